@@ -9,6 +9,7 @@ Every transform of the `tf` table is evaluated through each invocation form that
 on an exhaustively enumerated, bounded argument space, against a Python oracle (pyref_codec.py: hashlib, BIP340,
 own base58check / bech32(m) / script-number / secp256k1 code).  Nothing is sampled.
 """
+import re
 import json, os, random, shutil, signal, subprocess, sys, tempfile, time
 from multiprocessing import Pool
 
@@ -197,6 +198,19 @@ def gen_cases(tier):
             for bad, ac in ((spk[:-1], "wrong-length"), (spk + b"\x00", "wrong-length"), (b"\xa9\x14" + h + b"\x87\x00\x00", "not-p2pkh-template"),
                             (b"\x76\xa9\x13" + h + b"\x88\xac", "not-p2pkh-template"), (spk[:-1] + b"\xad", "not-p2pkh-template")):
                 add("scriptpubkey-to-addr", ac, [hx(bad)], ("reject",))
+    # ---- other address kinds: the version byte decides the script template (P2PKH 00 / 6f, P2SH 05 / c4); anything else, or a payload
+    #      that is not 20 bytes, has no scriptPubKey
+    h20 = R.hash160(b"C14 other address kinds")
+    for ver, kind in ((0x6f, "p2pkh"), (0x05, "p2sh"), (0xc4, "p2sh"), (0x80, None), (0x1e, None), (0xff, None)):
+        addr = R.b58check_encode(bytes([ver]) + h20)
+        if kind == "p2pkh":
+            add("addr-to-scriptpubkey", "p2pkh-testnet", [addr], ("data", b"\x76\xa9\x14" + h20 + b"\x88\xac"))
+        elif kind == "p2sh":
+            add("addr-to-scriptpubkey", "p2sh", [addr], ("data", b"\xa9\x14" + h20 + b"\x87"))
+        else:
+            add("addr-to-scriptpubkey", "unknown-version", [addr], ("reject",))
+    for payload, ac in ((h20[:19], "payload-19-bytes"), (h20 + b"\x00", "payload-21-bytes"), (b"", "payload-empty")):
+        add("addr-to-scriptpubkey", ac, [R.b58check_encode(b"\x00" + payload)], ("reject",))
     # ---- add / sub (little-endian 256-bit values; optional modulus as third argument)
     vals = [1, (1 << 128) - 1, 1 << 128, int.from_bytes(filler(0, 20), "little"), (1 << 192) - 1, int.from_bytes(filler(0, 31), "little"),
             R.P - 1, R.N - 1, 1 << 255, (1 << 256) - 1, (R.P - 1) // 2, int.from_bytes(R.sha256(b"v12"), "little") % R.N]
@@ -223,6 +237,12 @@ def gen_cases(tier):
                     continue
                 add("add", "modulus-unreduced-operand", [hx(le32(a)), hx(le32(b)), hx(le32(g))], ("data", le32((a + b) % g)))
                 add("sub", "modulus-unreduced-operand", [hx(le32(a)), hx(le32(b)), hx(le32(g))], ("data", le32((a - b) % g)))
+    # small integers written as decimal numbers (they compile to OP_0 .. OP_16, not to pushes)
+    for a in (0, 1, 2, 16, 17, 100):
+        for b in (0, 1, 5, 16, 17):
+            add("add", "small-decimal-operands", [str(a), str(b)], ("data", le32((a + b) % M)))
+            add("sub", "small-decimal-operands", [str(a), str(b)], ("data", le32((a - b) % M)))
+            add("add", "small-decimal-operands-modulus", [str(a), str(b), "7"], ("data", le32((a + b) % 7)))
     add("add", "one-argument", [enc(5, 17)], ("reject",))
     add("sub", "one-argument", [enc(5, 17)], ("reject",))
     add("add", "four-arguments", [enc(5, 17)] * 4, ("reject",))
@@ -269,6 +289,12 @@ def gen_cases(tier):
         for j, Qt in enumerate(pts):
             S = R.pt_add(Pt, Qt)
             add("combine-pubkeys", "valid" if S else "sum-is-infinity", [hx(pk), hx(R.pt_ser(Qt))], ("data", R.pt_ser(S)) if S else ("reject",))
+            # the uncompressed (65-byte) spelling of either or both keys denotes the same points
+            if S and i < 3 and j < 3:
+                unc = lambda P: b"\x04" + P[0].to_bytes(32, "big") + P[1].to_bytes(32, "big")
+                add("combine-pubkeys", "valid-first-uncompressed", [hx(unc(Pt)), hx(R.pt_ser(Qt))], ("data", R.pt_ser(S)))
+                add("combine-pubkeys", "valid-second-uncompressed", [hx(pk), hx(unc(Qt))], ("data", R.pt_ser(S)))
+                add("combine-pubkeys", "valid-both-uncompressed", [hx(unc(Pt)), hx(unc(Qt))], ("data", R.pt_ser(S)))
         for t in (1, 2, ds[5], R.N - 1):
             tb = t.to_bytes(32, "big")
             add("tweak-pubkey", "valid", [hx(tb), hx(pk)], ("data", R.pt_ser(R.pt_mul(t, Pt))))
@@ -434,9 +460,12 @@ def evaluate(unit):
         return base + ("crash", "crash:%s:%s:%s:%s" % (binary, sg, tf, tag), "%s died with %s (%s)" % (shown, sg, what[:200]), rp, None, None)
     if st == "unparsable":
         return base + ("unparsable", "unparsable-repl-output:%s" % tf, "%s: cannot find the sentinels in %r" % (shown, sg), rp, None, None)
+    # the HRP note of bech32-decode is an annotation, whichever stream it is written to (stdout before repair 453d635, the log channel since)
+    notes = [e for e in errs if re.match(r"^\(bech32m? HRP = .*\)$", e.strip())]
+    errs = [e for e in errs if e not in notes]
     rejected = bool(errs)
     val = lines[-1] if lines else None
-    pre = lines[:-1]
+    pre = lines[:-1] + [n.strip() for n in notes]
     kind = expect[0]
     if kind == "convention":
         return base + ("convention-rejected" if rejected else "convention-answered", None, None, None, "%s -> %s%s" % (shown, val, " [stderr: %s]" % errs[0][:80] if errs else ""), keep)
